@@ -65,3 +65,11 @@ Theorem C09_update_total :
     (exists it', lang_update expr it vals names = Ok it') \/ lang_update expr it vals names = Err Syntax \/
     lang_update expr it vals names = Err Unsupported.
 Proof. exact lang_update_total. Qed.
+
+(* the character classes of the model's lexer are the code's: isLetter, isIdentifierLetter and the loop condition of
+   skipWhitespace, translated from lexer.go on every run (Gen/Funcs.v) *)
+From Minidyn Require Import Gen.Funcs Proofs.GenFuncs.
+
+Theorem C09_lexer_character_classes_are_the_code :
+  forall c, go_isLetter c = is_letter c /\ go_isIdentifierLetter c = is_ident_char c /\ go_isWhitespace c = is_lex_space c.
+Proof. intros c. exact (conj (is_letter_is_code c) (conj (is_ident_char_is_code c) (is_lex_space_is_code c))). Qed.
